@@ -116,7 +116,7 @@ func checkProperty(pd *propDef, repo, tier string, seed int, controls bool, star
 				n++
 			}
 		}
-		if n == 0 && len(results) > 0 {
+		if n == 0 && len(results) > 0 && !sl.opt {
 			pat := ""
 			if sl.match != nil {
 				pat = " /" + sl.match.String() + "/"
